@@ -252,6 +252,9 @@ def build(tape, prop, tier):
     elif prop in ("C08", "C04") and tape.chance(0.05):
         s["motif"] = "liqreject"
         apply_motif(s, tape)
+    elif prop in ("C03", "C11") and tape.chance(0.06):
+        s["motif"] = "eqloans"
+        apply_motif(s, tape)
     elif prop == "C10" and len(s["bases"]) >= 2 and tape.chance(0.08):
         s["motif"] = "pricejump"
         apply_motif(s, tape)
@@ -304,6 +307,39 @@ def apply_motif(s, tape):
         s["scripts"] = {kk: v for kk, v in s["scripts"].items() if not kk.startswith("bar:0:")}
         second = order_op(otype=tape.choice(["market", "stop"]), side="sell", amt_kind="abs", abs=str(D(1 + tape.draw(4))), stp=8)
         s["scripts"][f"bar:0:{k}"] = [order_op(otype="market", side="buy", amt_kind="abs", abs="10.00"), second]
+        return
+    if s["motif"] == "eqloans":
+        # two loans of exactly the same size taken at different times (so they carry different interest), then an
+        # auto-repay sell whose proceeds pay for one of them only: which one must not depend on loan ids
+        b0 = s["bases"][0]
+        s["prec"][b0] = 2
+        s["prec"][QUOTE] = 2
+        s["pair_info"] = {}
+        s["hp"] = False
+        s["fee"] = dict(kind="none", pct="0", min="0")
+        s["liq"] = dict(kind="inf", limit="100", impact="0")
+        s["lend"] = dict(default=dict(cond, interest_percentage="1", interest_period=60), per_symbol={}, refuse_after=None)
+        s["reuse_lender"] = False
+        s["offgrid_loans"] = False
+        s["offgrid_init"] = False
+        s["inv"] = None
+        s["cross"] = False
+        s["prec"].pop("ZZZ", None)
+        s["bars"] = s["bars"][:len(s["bases"])]
+        s["init"] = {b0: "0.10"}
+        s["ts_mode"] = "shared"
+        s["bars"][0] = [dict(k=k, o=10000, h=10000, l=10000, c=10000, v="1000") for k in range(9)]
+        for pi in range(1, len(s["bars"])):
+            rows = (s["bars"][pi] * 9)[:9]
+            s["bars"][pi] = [dict(r, k=k) for k, r in enumerate(rows)]
+        s["jobs"] = []
+        s["oe_every"] = 0
+        s["sig_every"] = 0
+        loan = dict(kind="loan", yields=0, sleep=0, sym=0, amt_kind="abs", amt=0, abs="100.00", symname=QUOTE)
+        s["scripts"] = {"bar:0:0": [dict(loan)], "bar:0:2": [dict(loan)],
+                        "bar:0:3": [order_op(otype="market", side="buy", amt_kind="abs", abs="1.90")],
+                        "bar:0:5": [order_op(otype="market", side="sell", amt_kind="abs",
+                                             abs=str(D("1.00") + D(tape.draw(9)) / 100), ar=True)]}
         return
     if s["motif"] == "pricejump":
         # the collateral's price jumps in one bar, and in the very same instant - from the handler of another pair's bar -
